@@ -47,3 +47,13 @@ Theorem entry_points_forward_drop_rows :
 Proof. vm_compute. reflexivity. Qed.
 Theorem entry_points_present : (6 <=? length entry_edges)%nat = true.
 Proof. vm_compute. reflexivity. Qed.
+
+(* ---------- the linear-constraint operator table ---------- *)
+Require Cons.
+Definition cons_raw_of (o : Cons.op) : raw_op :=
+  (Cons.osym o, Cons.oarity o, Cons.oprec o,
+   match Cons.oassoc o with Cons.AN => 0 | Cons.AL => 1 | Cons.AR => 2 end%nat,
+   match Cons.ofix o with Cons.Prefix => 0 | Cons.Infix => 1 end%nat,
+   (if Cons.ocomma o then 4 else 0)%nat, Cons.ostruct o, false).
+Theorem constraint_table_matches_generated : map cons_raw_of Cons.table = constraint_raw_table.
+Proof. vm_compute. reflexivity. Qed.
